@@ -732,8 +732,20 @@ func (p *InlineParser) parseDelimiterRun(state *inlineState, start int) (end int
 		node.span.End++
 	}
 
+	// Flanking is determined within the current run of text:
+	// what precedes it on the line (such as a block quote marker)
+	// is not part of the inline content,
+	// and the beginning and the end of a line count as whitespace.
+	textStart := 0
+	if state.unparsedPos < len(state.unparsed) {
+		textStart = state.unparsed[state.unparsedPos].Span().Start
+	}
+	flanking := emphasisFlags(state.source[textStart:state.spanEnd()], Span{
+		Start: node.Span().Start - textStart,
+		End:   node.Span().End - textStart,
+	})
 	elem := delimiterStackElement{
-		flags: activeFlag | emphasisFlags(state.source, node.Span()),
+		flags: activeFlag | flanking,
 		n:     node.Span().Len(),
 		node:  node,
 	}
